@@ -40,6 +40,8 @@ def pool(ctx):
     odd = [D('1.0000000000000000000000000000001'), D('1.0000000000000000000000000000002'), D('1.00000000000000000000000000001'), D('12345678901234567890123456789012'),
            D('12345678901234567890123456789013'), D('0.1'), D('0.10'), D('-0.1'), 10 ** 30, 10 ** 30 + 1, -10 ** 30, 1e300, 1.0000000000000002, 1 - 2j, 1 + 2j, 2j,
            _dtm.date(2020, 1, 1), _dtm.date(2020, 1, 2), _dtm.time(1, 2, 3), _dtm.time(1, 2, 3, 5), _dtm.timedelta(1), _dtm.timedelta(1, 0, 1),
+           _dtm.timedelta(days=365000), _dtm.timedelta(days=365000, microseconds=1), _dtm.timedelta.max - _dtm.timedelta(microseconds=2), _dtm.timedelta.max - _dtm.timedelta(microseconds=3),
+           _dtm.timedelta.min + _dtm.timedelta(microseconds=1), _dtm.timedelta.min, _dtm.timedelta(days=-400000, microseconds=7), _dtm.timedelta(days=-400000, microseconds=8),
            _dtm.datetime(2020, 1, 1, tzinfo=_dtm.timezone.utc), _dtm.datetime(2020, 1, 1, 0, 0, 0, 1, tzinfo=_dtm.timezone.utc), _uuid.UUID(int=1), _uuid.UUID(int=2)]
     P += odd + [[x] for x in odd[:8]] + [{'k': x} for x in odd[:5]]
     g = Gen(ctx.rng, scalars=[1, 2, 'a', None, True, 1.5], keys=['a', 'b'], max_depth=2, max_width=3)
@@ -95,6 +97,44 @@ def bools_next_to_ints(ctx):
             ctx.count('pairs_bool_int:' + mname)
             if hs[i] == hs[j] and not eq:
                 ctx.violate({'a': repr(a), 'b': repr(b), 'mode': mname}, 'same hash although the values are not equivalent under the %s mode (a bool next to the int it equals)' % mname)
+
+
+class Chain:
+    """an ordered iterable that is not registered as a collections.abc.Sequence"""
+    def __init__(self, *items):
+        self.items = list(items)
+
+    def __iter__(self):
+        return iter(self.items)
+
+    def __len__(self):
+        return len(self.items)
+
+    def __repr__(self):
+        return 'Chain(%s)' % ', '.join(map(repr, self.items))
+
+
+def ordered_non_sequences(ctx):
+    """ordered mode (ignore_iterable_order=False, ignore_repetition=False) on ordered iterables of every kind, not only lists and tuples:
+    numpy arrays, deques, ranges, user iterables -- a different order of different items is different content"""
+    import collections
+    import numpy as np
+    mk = {'ndarray': lambda xs: np.array(xs), 'ndarray2d': lambda xs: np.array([xs, xs[::-1]]), 'deque': lambda xs: collections.deque(xs), 'Chain': lambda xs: Chain(*xs),
+          'dict_of_ndarray': lambda xs: {'k': np.array(xs)}, 'list_of_Chain': lambda xs: [Chain(*xs), 0], 'range': lambda xs: range(xs[0], xs[0] + 3 * (1 if xs[0] < xs[-1] else -1), 1 if xs[0] < xs[-1] else -1)}
+    seqs = [([1, 2, 3], [3, 2, 1]), ([1, 2], [2, 1]), ([5, 7, 9], [9, 5, 7]), ([1.5, 2.5, 0.5], [0.5, 1.5, 2.5])]
+    kw = dict(ignore_repetition=False, ignore_iterable_order=False)
+    for name, f in mk.items():
+        for xs, ys in seqs:
+            ctx.evaluations += 1
+            try:
+                a, b = f(xs), f(ys)
+                ha, hb = HS.deephash(a, **kw)[0], HS.deephash(b, **kw)[0]
+            except Exception as e:
+                ctx.count('ordered_non_sequence_raised:' + type(e).__name__); continue
+            ctx.count('ordered_non_sequences')
+            ctx.nontriv((name, repr(xs), repr(ys)))
+            if ha == hb:
+                ctx.violate({'a': repr(a), 'b': repr(b), 'mode': 'ordered', 'kind': name}, 'same hash in the ordered mode although the items come in a different order')
 
 
 def shared_table(ctx):
@@ -201,6 +241,7 @@ def run(ctx, impl_only=False):
                 ctx.count('equivalent_but_different_hash')      # the other direction belongs to C06; recorded, not judged here
         ctx.sample({'mode': mname, 'pool_size': len(P)})
     bools_next_to_ints(ctx)
+    ordered_non_sequences(ctx)
     shared_table(ctx)
     instants(ctx)
     # ---- boundary witnesses
